@@ -6,9 +6,9 @@ package main
 
 import (
 	"fmt"
-	"os"
 	"go/token"
 	"go/types"
+	"os"
 	"strings"
 
 	"golang.org/x/tools/go/ssa"
@@ -364,7 +364,7 @@ func forwardedCall(fn *ssa.Function) *ssa.Call {
 				return nil
 			}
 			call = x
-		case *ssa.FieldAddr, *ssa.Field, *ssa.DebugRef:
+		case *ssa.FieldAddr, *ssa.Field, *ssa.DebugRef, *ssa.Slice, *ssa.BinOp, *ssa.Convert, *ssa.ChangeType, *ssa.MakeInterface, *ssa.Index, *ssa.IndexAddr:
 		case *ssa.UnOp:
 			if x.Op != token.MUL {
 				return nil
